@@ -8,7 +8,8 @@
      P:exception  something escaped the app / more than one responder ran
      P:who        a different responder / sink / static route (or none) ran than the decision says
      P:status     status differs (404 / 405 / 400 / 200)
-     P:kwargs     keyword arguments differ from the template fields / named groups
+     P:kwargs     keyword arguments differ from the template fields / named groups (key set, values of groups that matched)
+     D:kwargs-none  a named group that did not take part arrived, but not as None
      P:allow      Allow header of a 405 / automatic OPTIONS differs from the implemented set
      D:badmethod  unknown method on a routed path did not answer 400 (documented detail)
      D:allow      an Allow header where the decision has none (or vice versa) outside 405 / OPTIONS
@@ -39,7 +40,8 @@ JudgeReq ==
     IN  IF obs.bad THEN "P:exception"
         ELSE IF obs.who # v.who \/ obs.id # v.id \/ (v.who = "res" /\ (obs.meth # Ev.m \/ obs.sfx # v.sfx)) THEN "P:who"
         ELSE IF obs.status # v.status THEN (IF o.kind = "BadMethod" THEN "D:badmethod" ELSE "P:status")
-        ELSE IF okw # v.kw THEN "P:kwargs"
+        ELSE IF {x.n : x \in okw} # {x.n : x \in v.kw} THEN "P:kwargs"         \* the key set: every named group of the prefix
+        ELSE IF okw # v.kw THEN (IF \A x \in v.kw \ okw : x.v = NONE THEN "D:kwargs-none" ELSE "P:kwargs")
         ELSE IF obs.hasAllow # v.hasAllow \/ Range(obs.allow) # v.allow
              THEN (IF o.kind \in {"NotAllowed", "AutoOptions"} THEN "P:allow" ELSE "D:allow")
         ELSE "ok"
